@@ -12,9 +12,9 @@ PROP = dict(
                "ones must leave the bitmap unchanged, and the bitmap must survive count/read/add/optimize/write), fragment.Open on mutated fragment files incl. the op log, "
                "API.ClusterMessage as the gossip delegate calls it, and pql.ParseString (must finish). A panic in those is a failure. Exploration, not proof.",
     level_note="Trusted: Go toolchain, rapid, the byte-level encoders/reference reader of the two roaring formats in harness/pkg/roaring/c06_bytes_test.go (self-checked "
-               "against the decoder on unmutated encodings). Seeds hold 1-3 containers (official format with runs: < 4 containers, cardinality != 4096, see D4). "
+               "against the decoder on unmutated encodings). Seeds hold 1-3 containers (so the official run-cookie form never carries an offset header). In the in-process roaring checks the payload ends exactly at an inaccessible guard page (debug.SetPanicOnFault), so reads past the end made through unsafe pointers are caught too. "
                "Recovered panics of the HTTP request goroutine (500 'PANIC:') count as rejections by the statement and are only counted in the evidence. "
-               "After an accepted cluster message only liveness is judged (a well-formed message may legitimately change the node's cluster state; the child is then restarted). "
+               "After an accepted cluster message only liveness is judged (a well-formed message may legitimately change the node's cluster state); the child is replaced whenever it no longer reports a one-node NORMAL cluster. "
                "Hangs are detected with generous timeouts (40 s per request, 60 s per parse) on operations that take milliseconds. Native go fuzzing is not wired into the driver.",
     rule="server: one request per case, entry point import|query|message (3:2:1); distinct = hash of path+body; non-trivial = the request passed the first validation: "
          "import accepted or rejected by a container/offset check, query text that parses (or a recovered panic), message decoded and handed to receiveMessage. "
@@ -23,7 +23,8 @@ PROP = dict(
     assumptions=["an import payload is 'consistent' iff a strict reading by the format descriptions succeeds (cardinalities match, arrays and runs strictly increasing, keys increasing)",
                  "a query text is malformed iff pql.ParseString (same build, in the parent) rejects it; only then must a rejected query leave data unchanged "
                  "(a well-formed multi-call query may fail at a later call after earlier calls were applied)",
-                 "stored fragment data: while DP10 is open, files whose container section is not consistent but are accepted are not used further (signature of DP10)"],
+                 "stored fragment data: while DP10 is open, files whose container section is not consistent but are accepted are not used further (signature of DP10)",
+                 "while DP14 is open, a panic raised inside the generated protobuf code internal/*.pb.go (stack inspected) on a cluster message is counted as excluded, not as a violation"],
     tags=["gp"],
     units=[
         U("server", "./server", "^TestVerifC06_Server$", 900, 24000, sq=3, sth=8, timeout={"quick": 600, "thorough": 3000}),
